@@ -118,6 +118,15 @@ def ops : List (String × (List String → String)) := [
         "ok " ++ Wr.render (Wr.list (fun ev => Wr.list evTok ev) evs ++ Crash.fields.map (fun f => valTok (s.cfg f.name)))
       | .err _ => "err"
       | .panic site => "panic " ++ site),
+  -- symmode <mode>  →  skip | run <local> <unknown options> <demangler options> | panic <site>
+  ("symmode", fun ts =>
+    match Rd.run Rd.str ts with
+    | none => "bad-op"
+    | some m => match symbolizeMode lowerAscii m with
+      | .ok none => "skip"
+      | .ok (some (st, n)) => "run " ++ (if st.loc then "1" else "0") ++ " " ++ toString st.unknown ++ " " ++ toString n
+      | .err _ => "err"
+      | .panic s => "panic " ++ s),
   -- fields: the option table  →  <name> <kind>…
   ("fields", fun _ =>
     Wr.render (Wr.list (fun f : Field => [f.name.toTok, match f.kind with
